@@ -197,8 +197,8 @@ class TrackSet(_Geometry):
         for cluster, time in zip(cluster_time_stack.clusters, cluster_time_stack.time):
             for _id, point in cluster.points.items():
                 space_time_point = SpaceTimePoint(
-                    longitude=point.latitude,
-                    latitude=point.longitude,
+                    longitude=point.longitude,
+                    latitude=point.latitude,
                     time=time,
                     id=_id,
                 )
